@@ -111,6 +111,11 @@ func (l *lexer) acceptLiteral(ttype int) bool {
 }
 
 func (l *lexer) acceptNumeric(ttype int) bool {
+	begin := l.pos
+	if strings.HasPrefix(l.input[l.pos:], "-") {
+		// negative number
+		l.pos++
+	}
 	first := true
 	for {
 		r := l.next()
@@ -121,6 +126,7 @@ func (l *lexer) acceptNumeric(ttype int) bool {
 				l.backup()
 			}
 			if first {
+				l.pos = begin
 				return false
 			}
 			l.emit(ttype)
